@@ -116,9 +116,36 @@ func runCodeGetter(c *core.Ctx) {
 					saveCur, saveEP := cur, ep
 					cur, ep = h, h.Params[pj]
 					for _, hr := range sx.Returns(h) {
-						if x.Index < len(hr.Results) {
-							visit(hr.Results[x.Index], hr.Block(), d+1)
+						if x.Index >= len(hr.Results) {
+							continue
 						}
+						// (value, false): the companion of a false found-flag is never looked at by the accessor
+						giveUp := false
+						for oi, other := range hr.Results {
+							if oi == x.Index {
+								continue
+							}
+							if k, isK := other.(*ssa.Const); isK && k.Value != nil && k.Value.String() == "false" {
+								giveUp = true
+							}
+						}
+						if giveUp {
+							// ... provided the accessor hands the value on only under the found-flag
+							underFound := false
+							lits := dominatingLits(ret.Block())
+							if from != nil {
+								lits = append(lits, dominatingLits(from)...)
+							}
+							for _, l := range lits {
+								if fx, isEx := l.V.(*ssa.Extract); isEx && fx.Tuple == x.Tuple && fx.Index != x.Index && !l.Neg {
+									underFound = true
+								}
+							}
+							if underFound {
+								continue
+							}
+						}
+						visit(hr.Results[x.Index], hr.Block(), d+1)
 					}
 					cur, ep = saveCur, saveEP
 				case *ssa.TypeAssert:
